@@ -180,7 +180,7 @@ def run(ctx):
         adds = [st for b in ffb.blocks if not b.get("cu") for st in b["s"]
                 if st[0] == "=" and st[2][0] == "bin" and st[2][1].startswith("Add") and
                 any(n == "position" for n, _o in C.place_fields(C.op_place(st[2][2]) or [0, []]))]
-        ok = adds and all(R.derives_from_call(ffb, a[2][3], R.mk_pred(r"writer::frame::write_frame$")) for a in adds)
+        ok = adds and all(R.derives_from_call_deep(fb, ffb, a[2][3], R.mk_pred(r"writer::frame::write_frame$")) for a in adds)
         if ok:
             ctx.ok("C01.R4", "flush_block: position += write_frame(..)", "", ffb.loc())
         else:
